@@ -8,3 +8,4 @@ rsync -a --exclude .git /repo/ $D/
 cd /verif
 TRACKPY_REPO=$D ./check $C --tier $T 2>&1 | grep -E "VIOLATION|KNOWN|violated|tier=" | head -8
 rm -rf $D
+cd /verif && python3 tools/regen_all.py >/dev/null 2>&1 || true   # translators ran against the scratch tree: regenerate from /repo
